@@ -273,7 +273,7 @@ fn make_progress(draw: u64, chain: u64, diverging: bool, tuning: bool, step_size
 }
 
 /// rows of one real chain (a warmup + b sampling draws), divergences injected at `div_draws`
-fn make_rows<S: Settings>(settings: &S, chain: u64, n: usize, faults: Vec<(u64, FaultKind)>, reduced: bool) -> Result<(Vec<RRow>, Vec<u64>), String> {
+pub fn make_rows<S: Settings>(settings: &S, chain: u64, n: usize, faults: Vec<(u64, FaultKind)>, reduced: bool) -> Result<(Vec<RRow>, Vec<u64>), String> {
     let mut dens = RichDens::new(faults);
     dens.reduced = reduced;
     let evals = dens.n_eval.clone();
@@ -331,7 +331,7 @@ pub enum Ops {
     InspectEach,
 }
 
-fn feed<C: ChainStorage, S: Settings>(cs: &mut C, settings: &S, row: &RRow) -> Result<()> {
+pub fn feed<C: ChainStorage, S: Settings>(cs: &mut C, settings: &S, row: &RRow) -> Result<()> {
     let stats: Vec<(&str, Option<Value>)> = row.stats.iter().map(|(k, v)| (k.as_str(), v.clone())).collect();
     let draws: Vec<(&str, Option<Value>)> = row.draws.iter().map(|(k, v)| (k.as_str(), v.clone())).collect();
     cs.record_sample(settings, stats, draws, &row.progress())
@@ -1025,7 +1025,7 @@ pub fn run(tier: Tier, _replay: Option<String>) -> i32 {
     report.finish()
 }
 
-trait SetChains {
+pub trait SetChains {
     fn set(&mut self, n: usize);
 }
 impl<A: std::fmt::Debug + Copy + Default + serde::Serialize> SetChains for nuts_rs::NutsSettings<A> {
